@@ -366,4 +366,8 @@ theorem where_hashes_vstack {ρ : Type} [DecidableEq ρ] (code : Vec d → ρ) (
   rw [List.map_append, positions_append]
   simp
 
+/-- a sequence is its first `t` elements followed by the rest (laws `aslice.split`, `rslice.split`) -/
+theorem take_append_drop {β : Type} (l : List β) (t : ℕ) : l.take t ++ l.drop t = l :=
+  List.take_append_drop t l
+
 end SeqLaws
